@@ -23,7 +23,8 @@ CLAIMS = {
                 'configuration file); 4-byte ASNs accepted and AS paths built 4 bytes wide. Also: (high << k) + low assemblies bound the low part below 2^k; numbers handed to masking factories are bounded; FlowSpec lists keep their AND bits as written. Not decided: acceptance of every '
                 'token sequence.'
                 ' Round 3: a range guard one short of the field is reported; the family of a prefix is recorded on every returning path; every installing API handler validates first and the next-hop requirement matches the encoder for every SAFI (F54, F55 fixed); a failed conversion is a refusal (F56 fixed); one-octet fields and prefix lengths handed to factories are bounded (F57, F58 fixed).'
-                ' Round 4: FlowSpec values are bounded by the octets of their component, nothing written is silently left out, a hexadecimal extended community is 8 octets (F70-F72 fixed); flow rules need no next hop.',
+                ' Round 4: FlowSpec values are bounded by the octets of their component, nothing written is silently left out, a hexadecimal extended community is 8 octets (F70-F72 fixed); flow rules need no next hop.'
+                ' Round 5: the address family of a prefix goes with the prefix in every text parser (R13, F75/F76 fixed); type octets and layout of a route target / origin come from the same table entry (R14, _encode evaluated).',
         'note': _NOTE,
         'technique': 'interval upper bounds from dominating range guards, pack-format width table, def-use into lossy factories, call-site presence checks',
     },
@@ -65,7 +66,8 @@ CLAIMS = {
                 'withdraw unconditionally; every emitted keyword is in the static route parser and the prefix is a v6 dispatch '
                 'path. Also: the community announced per target x withdraw_on_down x community options. Not decided: timing, the external check command.'
                 ' Round 3: module-level state tuples and hoisted locals are resolved; the as-path precedence (state-specific over generic) is evaluated over the four cases.'
-                ' Round 4: the selector for 1 / 2 / 3 neighbors (F73 fixed) and every line exabgp(target) writes for 8 states x 5 option sets are obtained by evaluating the function on the syntax tree.',
+                ' Round 4: the selector for 1 / 2 / 3 neighbors (F73 fixed) and every line exabgp(target) writes for 8 states x 5 option sets are obtained by evaluating the function on the syntax tree.'
+                ' Round 5: the rise/fall automaton is decided by evaluating one() and trigger() on 768 cells (state x disabled x result x counter x thresholds x debounce) against the reference, not by extracting a table.',
         'note': _NOTE,
         'technique': 'decision-table extraction by exhaustive symbolic evaluation of the if-tree, writer/reader grammar table agreement',
     },
@@ -77,7 +79,8 @@ CLAIMS = {
                 'ensure_ascii, oneline confines to ASCII); no newline in JSON templates, envelope keys; every message kind has '
                 'an emitter in each encoder class. One known finding (F9). Also: NO_GENERATION pseudo-attributes are rendered only for NEXT_HOP on request (evaluated over the cases); unsent bytes go back to the front of the write queue. Not decided: parseability of every nested fragment.'
                 ' Round 3: fragment kinds (member vs value) of route json() and list contexts (F46 fixed); no strict codec in the encoders; bare JSON numbers are decimal.'
-                ' Round 4: one member per attribute name (F68 fixed); per-process buffers die with the process (F69 fixed); each process gets the record of its own encoder.',
+                ' Round 4: one member per attribute name (F68 fixed); per-process buffers die with the process (F69 fixed); each process gets the record of its own encoder.'
+                ' Round 5: the dead fallback branch of the attribute JSON ladder is judged from the ladder as written.',
         'note': _NOTE,
         'technique': 'field-sensitive taint from decode sources + safe-string inference over f-string/format/% interpolations with mypy types, table injectivity, registry exhaustiveness',
     },
@@ -88,7 +91,8 @@ CLAIMS = {
                 'MP_UNREACH layout and codes; next-hop self resolved before every RIB insertion into a fresh attribute '
                 'collection. Not decided: value-level round trip of every route against an independent decoder.'
                 ' Round 3: a default replaces only an absent attribute (membership / None test, not truthiness); negotiated local / peer AS are the true 4-byte values (shared C07.R3); collections that pack differently do not share an index (F45 fixed).'
-                ' Round 4: only IPv4 unicast with an IPv4 next hop reaches the NLRI / withdrawn fields (one turn of the sorting loops evaluated per family, F64 fixed); no UPDATE without a route is emitted (F67 fixed).',
+                ' Round 4: only IPv4 unicast with an IPv4 next hop reaches the NLRI / withdrawn fields (one turn of the sorting loops evaluated per family, F64 fixed); no UPDATE without a route is emitted (F67 fixed).'
+                ' Round 5: the message size the UPDATEs are packed for needs Extended Message in both OPENs (R13, shared with C07.R1).',
         'note': _NOTE,
         'technique': 'decision-table extraction from lambda/if trees compared with an RFC oracle, sibling table agreement, def-use provenance, constant folding',
     },
@@ -188,7 +192,8 @@ CLAIMS = {
                 'negotiated.msg_size after negotiated.received; no cancellable partial read that is then resumed. Not '
                 'decided: behaviour under every actual segmentation (asyncio sock_recv_into contract trusted).'
                 ' Round 3: no message leaves the reader between the header read and the per-type length check.'
-                ' Round 4: length and type decoded as unsigned octets 16-17 and octet 18 (both readers evaluated on two headers); Message.Length entries classified by evaluation.',
+                ' Round 4: length and type decoded as unsigned octets 16-17 and octet 18 (both readers evaluated on two headers); Message.Length entries classified by evaluation.'
+                ' Round 5: the error the reader hands back is tested on every path before anything leaves read_message.',
         'note': _NOTE,
         'technique': 'decision-plan extraction + sibling comparison, constant folding, def-use shape check of the read loop',
     },
